@@ -35,6 +35,24 @@ def elem(I, ref, o, idx: VInt):
                     return I.getitem(p, rel)
                 return elem(I, p, po, rel)
         raise Unsupported("concat list index beyond all segments")
+    if e is None and o.meta["elem_type"] in ("dictitems", "setitems"):
+        # the i-th item of a finite-universe dict / set: some present key (and its value)
+        cands = o.meta["cands"]          # [(key V, present Bool, value V | None)]
+        kt = z3.Int(fresh(o.meta["name"] + "_key"))
+        en = cands[0][0].enum if cands and isinstance(cands[0][0], VInt) else None
+        if not all(isinstance(k, VInt) and k.c is not None for k, _, _ in cands):
+            raise Unsupported("items() of a symbolic dict with non-integer keys")
+        I.path.assume(z3.Or([z3.And(p, kt == k.c) for k, p, _ in cands]) if cands else z3.BoolVal(False))
+        key_v = VInt(i=kt, lo=min(k.c for k, _, _ in cands), hi=max(k.c for k, _, _ in cands), enum=en)
+        if o.meta["elem_type"] == "setitems":
+            val = key_v
+        else:
+            from .values import VTuple
+            val = VTuple([key_v, ops.union_of([(kt == k.c, v) for k, p, v in cands])])
+        e = (val, idx)
+        o.meta["elems"][key] = e
+        I.path.assumption("dict.items() / set iteration over a finite-universe container: each item is a present key (with its value); "
+                          "distinctness and coverage of the enumeration are not used")
     if e is None:
         if o.meta["elem_type"] == "opaque":
             raise Unsupported("element access on an opaque list")
@@ -42,6 +60,19 @@ def elem(I, ref, o, idx: VInt):
         e = (o.meta["cs"].make(I, o.meta["elem_type"], nm), idx)
         o.meta["elems"][key] = e
     return e[0]
+
+
+def items_view(I, ref, o):
+    """symbolic list view of the items of a symdict / the members of a symset"""
+    if o.kind == "symdict":
+        cands = [(k, p, v) for (k, p, v) in o.items if I.path.feasible(p)]
+        kind = "dictitems"
+    else:
+        cands = [(k, p, None) for k, p in zip(o.items, o.meta["mem"]) if I.path.feasible(p)]
+        kind = "setitems"
+    n = B.sym_len(I, ref, o)
+    lo = HObj("symlist", items=[], meta={"len": n, "elem_type": kind, "elems": {}, "cs": None, "name": kind, "cands": cands})
+    return VRef(I.path.alloc(lo))
 
 
 def getitem(I, ref, o, idx):
